@@ -6,16 +6,17 @@ import (
 	"strings"
 
 	"verif/mc/engine"
+	"verif/mc/maporder"
 )
 
 // ---------------------------------------------------------------- actions / histories
 
 // An action label is "R:<pod>" (one real Reconcile of that pod) or "F:<kind>@<podgroup>" (a foreign update).
-func rLabel(pod string) string       { return "R:" + pod }
-func fLabel(kind, pg string) string  { return "F:" + kind + "@" + pg }
-func isReconcile(label string) bool  { return strings.HasPrefix(label, "R:") }
-func isForeign(label string) bool    { return strings.HasPrefix(label, "F:") }
-func isAbsent(label string) bool     { return strings.HasPrefix(label, "absent:") }
+func rLabel(pod string) string      { return "R:" + pod }
+func fLabel(kind, pg string) string { return "F:" + kind + "@" + pg }
+func isReconcile(label string) bool { return strings.HasPrefix(label, "R:") }
+func isForeign(label string) bool   { return strings.HasPrefix(label, "F:") }
+func isAbsent(label string) bool    { return strings.HasPrefix(label, "absent:") }
 func parseF(label string) (k, g string) {
 	s := strings.TrimPrefix(label, "F:")
 	i := strings.Index(s, "@")
@@ -40,7 +41,7 @@ type tracker struct {
 
 type stepStats struct {
 	reconciles, foreignUpdates, writeFree, mustBeWriteFree, reconcilesAfterForeign int
-	foreignKindsFollowed                                                        map[string]bool
+	foreignKindsFollowed                                                           map[string]bool
 }
 
 // step executes ONE action on the world and applies the per-transition oracles (1), (3), (4).
@@ -209,29 +210,30 @@ func runHistory(sc *scenario, hist []string) (w *world, viols []engine.Violation
 // ---------------------------------------------------------------- per-scenario exploration
 
 type scenarioStats struct {
-	Scenario     string             `json:"scenario"`
-	Kind         string             `json:"kind"`
-	KindID       string             `json:"kind_id"`
-	Pods         int                `json:"pods"`
-	States       int                `json:"states"`
-	Transitions  int                `json:"transitions"`
-	Reconciles   int                `json:"reconciles"`
-	Foreign      int                `json:"foreign"`
-	WriteFree    int                `json:"write_free"`
-	MustFree     int                `json:"must_free"`
-	AfterForeign int                `json:"after_foreign"`
-	Perms        int                `json:"perms"`
-	Subsets      int                `json:"subsets"`
-	MaxDepth     int                `json:"max_depth"`
-	Closed       bool               `json:"closed"` // BFS frontier emptied before the depth bound
-	CapHit       bool               `json:"cap_hit"`
-	PGs          int                `json:"pgs"`
-	DetReplays   int                `json:"det_replays"`
-	FKinds       []string           `json:"fkinds"`
-	Finals       int                `json:"finals"` // all-reconciled states compared by the differential oracle
-	Violations   []engine.Violation `json:"violations,omitempty"`
-	HarnessErr   string             `json:"harness_err,omitempty"`
-	Sample       any                `json:"sample,omitempty"`
+	Scenario        string             `json:"scenario"`
+	Kind            string             `json:"kind"`
+	KindID          string             `json:"kind_id"`
+	Pods            int                `json:"pods"`
+	States          int                `json:"states"`
+	Transitions     int                `json:"transitions"`
+	Reconciles      int                `json:"reconciles"`
+	Foreign         int                `json:"foreign"`
+	WriteFree       int                `json:"write_free"`
+	MustFree        int                `json:"must_free"`
+	AfterForeign    int                `json:"after_foreign"`
+	Perms           int                `json:"perms"`
+	Subsets         int                `json:"subsets"`
+	MaxDepth        int                `json:"max_depth"`
+	Closed          bool               `json:"closed"` // BFS frontier emptied before the depth bound
+	CapHit          bool               `json:"cap_hit"`
+	PGs             int                `json:"pgs"`
+	DetReplays      int                `json:"det_replays"`
+	MapOrderReplays int                `json:"maporder_replays"`
+	FKinds          []string           `json:"fkinds"`
+	Finals          int                `json:"finals"` // all-reconciled states compared by the differential oracle
+	Violations      []engine.Violation `json:"violations,omitempty"`
+	HarnessErr      string             `json:"harness_err,omitempty"`
+	Sample          any                `json:"sample,omitempty"`
 }
 
 type bounds struct {
@@ -269,6 +271,9 @@ func permutations(n int) [][]int {
 	rec(0)
 	return out
 }
+
+// Go map-iteration seeds (O-maporder overlay): small maps iterate in insertion order rotated by the seed.
+var mapSeeds = [3]uint64{0, 0, 5}
 
 type finalState struct {
 	hist  []string
@@ -368,10 +373,10 @@ func sameMultiset(a, b []string) bool {
 }
 
 type node struct {
-	snap    *snapshot
-	tr      tracker
-	hist    []string
-	allRec  bool
+	snap   *snapshot
+	tr     tracker
+	hist   []string
+	allRec bool
 }
 
 func explore(sc *scenario, kindID, tier string) *scenarioStats {
@@ -405,11 +410,16 @@ func explore(sc *scenario, kindID, tier string) *scenarioStats {
 	finals := []*finalState{}
 	allMask := uint(1)<<uint(len(sc.Pods)) - 1
 
+	maporder.Set(mapSeeds[0])
 	// ---- phase 1: every permutation of the first reconciles, then a full second pass (same order) and a third (reverse order)
 	w := newWorld(sc, nil)
 	for _, perm := range permutations(len(sc.Pods)) {
-		var canon [2]string
-		for rep := 0; rep < 2; rep++ { // executed twice: determinism check of the harness+controller
+		// rep 0 and 1: same map-iteration seed (determinism of harness + controller; divergence = harness error);
+		// rep 2: a different Go map-iteration order (divergence = the grouper's output depends on map order)
+		var canon [3]string
+		var lastHist []string
+		for rep := 0; rep < 3; rep++ {
+			maporder.Set(mapSeeds[rep])
 			w.reset(nil)
 			tr := &tracker{}
 			hist := []string{}
@@ -417,7 +427,7 @@ func explore(sc *scenario, kindID, tier string) *scenarioStats {
 				for _, i := range order {
 					hist = append(hist, rLabel(sc.Pods[i].Name))
 					var sst *stepStats = st
-					if rep == 1 {
+					if rep > 0 {
 						sst = &stepStats{foreignKindsFollowed: map[string]bool{}}
 					}
 					vs, he := step(w, tr, hist[len(hist)-1], hist, sst)
@@ -448,6 +458,7 @@ func explore(sc *scenario, kindID, tier string) *scenarioStats {
 			}
 			v := w.view()
 			canon[rep] = first + "|" + v.canon()
+			lastHist = hist
 			if rep == 0 {
 				finals = append(finals, &finalState{hist: append([]string{}, hist...), view: v, clean: true})
 				out.PGs = max(out.PGs, len(v.PGs))
@@ -456,11 +467,18 @@ func explore(sc *scenario, kindID, tier string) *scenarioStats {
 				}
 			}
 		}
+		maporder.Set(mapSeeds[0])
 		out.Perms++
 		out.DetReplays++
+		out.MapOrderReplays++
 		if canon[0] != canon[1] {
 			out.HarnessErr = fmt.Sprintf("%s: permutation %v is not reproducible (two executions of the same history differ)", sc.Name, perm)
 			return out
+		}
+		if canon[0] != canon[2] {
+			out.Violations = append(out.Violations, engine.Violation{Property: "C18", Key: fmt.Sprintf("C18/map-order-dependent kind=%s", sc.Kind),
+				Message: fmt.Sprintf("%s: history %v gives a different store under a different Go map-iteration order (seed %d vs %d)", sc.Name, lastHist, mapSeeds[0], mapSeeds[2]),
+				Replay:  replayData{Scenario: sc.Name, Chain: sc.Chain, Law: "map-order", History: lastHist}})
 		}
 	}
 
